@@ -3,6 +3,8 @@ use bc_components::tags::*;
 use dcbor::prelude::*;
 #[cfg(feature = "expression")]
 use std::sync::Arc;
+#[cfg(feature = "verif_hooks")]
+use crate::verif_sync::shadow_std as std;
 use std::sync::{ Mutex, Once };
 #[cfg(feature = "known_value")]
 use crate::extension::known_values::{ KnownValuesStore, KNOWN_VALUES };
